@@ -3,11 +3,15 @@
 // PlatformSpecificMalloc/Realloc/Free seams.  The seams log every size requested from the "underlying allocator", return
 // NULL at the call indices the scenario names and for every request above 1 MiB (huge sizes never reach libc).
 //
-// scenario :  <guard 0|1> <node_size> <nfail> <failing call index>*  <op>*
+// scenario :  <guard 0|1> <node_size> <nfail> <failing call index>*  [:wrap]  <op>*
+//   :wrap  :  the scenario runs with memory accounting on: a GlobalMemoryAccountant is started, i.e. an AccountingTestMemoryAllocator
+//             is installed around each of the three recording allocators (malloc, new, new[]); the underlying call log then also
+//             holds the wrappers' own bookkeeping requests
 //   op     :  :m n | :dm n (detector level, inline record) | :c num size | :r id|~ n | :sd $str | :sn $str n | :n n | :na n | :nt n | :nat n | :nd n | :nad n
 //             | :f id | :w id off $bytes          (id = index of the op that created the block)
-// observation: <guard> <sizeof node> then per op
-//   | kind ncalls (ckind size ok)* amod off req nodekind nodeval digest total reports
+// observation: <guard> <sizeof node> <wrappers installed 0|1> then per op
+//   | kind ncalls (ckind size ok)* amod overlap off req nodekind nodeval digest total reports
+//   (overlap = 1 when the user bytes + guard or the record of the new block intersect those of another live block, or each other)
 //   and finally  | :end nlive (id digest)* total reports   : the blocks still live (newest first) with their content, read before the
 //   harness releases them; total and reports after every remaining block has been released.
 #include <new>
@@ -102,13 +106,30 @@ public:
 };
 
 // ---- blocks of the scenario
-struct Block { char* p; size_t n; int fam; bool live; bool det; bool readable; };   // fam 0 malloc, 1 new, 2 new[]; det: allocated at detector level with an inline record
+struct Block { char* p; size_t n; int fam; bool live; bool det; bool readable; char* node; };   // fam 0 malloc, 1 new, 2 new[]; det: allocated at detector level with an inline record
 static TestMemoryAllocator* gMalloc;
 static std::vector<Block> blocks;
 static MemoryLeakDetector* det; static RecFailure rep;
 
 static void on() { recording = true; MemoryLeakWarningPlugin::turnOnDefaultNotThreadSafeNewDeleteOverloads(); }
 static void off() { MemoryLeakWarningPlugin::turnOffNewDeleteOverloads(); recording = false; }
+
+static bool meet(const char* a, size_t la, const char* b, size_t lb) { return la > 0 && lb > 0 && a < b + lb && b < a + la; }
+// user bytes + guard and record of [x] against those of every other live block, and against each other
+static bool overlaps(const Block& x, size_t self)
+{
+    const size_t G = MemoryLeakDetector::memory_corruption_buffer_size, ns = sizeof(MemoryLeakDetectorNode);
+    if (x.node && meet(x.p, x.n + G, x.node, ns)) return true;
+    for (size_t i = 0; i < blocks.size(); i++) {
+        const Block& b = blocks[i];
+        if (i == self || !b.live || !b.readable) continue;
+        if (meet(x.p, x.n + G, b.p, b.n + G)) return true;
+        if (b.node && meet(x.p, x.n + G, b.node, ns)) return true;
+        if (x.node && meet(x.node, ns, b.p, b.n + G)) return true;
+        if (x.node && b.node && meet(x.node, ns, b.node, ns)) return true;
+    }
+    return false;
+}
 
 static std::string digest(const char* p, size_t n)
 {
@@ -145,15 +166,24 @@ int main()
         t.u();                                   // node size assumed by the model (we print the measured one)
         memset(failAt, 0, sizeof failAt);
         int nf = t.n(); for (int i = 0; i < nf; i++) { unsigned long k = t.u(); if (k < (unsigned long)MAXFAIL) failAt[k] = true; }
+        bool wrap = false;
+        if (t.peek() == ":wrap") { t.next(); wrap = true; }
         callIndex = 0; nregions = 0; rep.count = 0;
         det = new MemoryLeakDetector(&rep);
         MemoryLeakWarningPlugin::setGlobalDetector(det, &rep);
         det->enable();
         blocks.clear();
-        out = hx((unsigned long long)MemoryLeakDetector::memory_corruption_buffer_size ? 1 : 0) + " " + hx(sizeof(MemoryLeakDetectorNode));
+        GlobalMemoryAccountant* accountant = NULL;
+        if (wrap) {                              // memory accounting on: the three current allocators become AccountingTestMemoryAllocators
+            accountant = new GlobalMemoryAccountant;
+            accountant->start();
+            gMalloc = getCurrentMallocAllocator();
+        }
+        bool wrapped = getCurrentMallocAllocator() != &aMalloc && getCurrentNewAllocator() != &aNew && getCurrentNewArrayAllocator() != &aNewArr;
+        out = hx((unsigned long long)MemoryLeakDetector::memory_corruption_buffer_size ? 1 : 0) + " " + hx(sizeof(MemoryLeakDetectorNode)) + " " + hx(wrapped ? 1 : 0);
         while (!t.end()) {
             std::string op = t.sym();
-            Block nb; nb.p = NULL; nb.n = 0; nb.fam = 0; nb.live = false; nb.det = false; nb.readable = false;
+            Block nb; nb.p = NULL; nb.n = 0; nb.fam = 0; nb.live = false; nb.det = false; nb.readable = false; nb.node = NULL;
             int kind = K_SKIP; ncalls = 0; int rep0 = rep.count;
             const char* shown = NULL; size_t shownN = 0;     // block whose content is shown
             bool isAlloc = false, skip = false; unsigned char fill = 0xA5; bool doFill = false; size_t fillFrom = 0;
@@ -205,7 +235,7 @@ int main()
             }
             else { fprintf(stderr, "harness: bad op %s\n", op.c_str()); exit(3); }
 
-            size_t amod = 0, offv = 0, req = 0, nodekind = 0, nodeval = 0;
+            size_t amod = 0, ovl = 0, offv = 0, req = 0, nodekind = 0, nodeval = 0;
             if (isAlloc) {
                 if (kind != K_BADALLOC) kind = nb.p ? K_PTR : K_NULL;
                 if (nb.p) {
@@ -216,19 +246,20 @@ int main()
                     else {
                         offv = (size_t)(nb.p - regions[r].base); req = regions[r].size;
                         char* node = (char*)det->memoryTable_.retrieveNode(nb.p);
+                        nb.node = node;
                         if (!node) nodekind = 9;
                         else if (node >= regions[r].base && node < regions[r].base + regions[r].size) { nodekind = 1; nodeval = (size_t)(node - regions[r].base); }
-                        else { int q = findBase(node); if (q < 0) nodekind = 9; else { nodekind = 2; nodeval = regions[q].size; } }
+                        else { int q = findRegion(node); if (q < 0) nodekind = 9; else { nodekind = 2; nodeval = regions[q].size - (size_t)(node - regions[q].base); } }   // bytes from the record to the end of its region
                     }
                     // usable bytes: touch every requested byte (ASan judges), unless the layout is already known to be unsound
                     size_t usable = (r >= 0 && offv <= req) ? req - offv : 0;
                     if (doFill && nb.n <= usable) memset(nb.p + fillFrom, fill, nb.n - fillFrom);
-                    if (nb.n <= usable) { shown = nb.p; shownN = nb.n; nb.readable = true; }
+                    if (nb.n <= usable) { shown = nb.p; shownN = nb.n; nb.readable = true; ovl = overlaps(nb, blocks.size()) ? 1 : 0; }
                 }
             }
             std::string line = " | " + hx(kind) + " " + hx(ncalls);
             for (int i = 0; i < ncalls; i++) line += " " + hx(calls[i].kind) + " " + hx(calls[i].size) + " " + hx(calls[i].ok);
-            line += " " + hx(amod) + " " + hx(offv) + " " + hx(req) + " " + hx(nodekind) + " " + hx(nodeval);
+            line += " " + hx(amod) + " " + hx(ovl) + " " + hx(offv) + " " + hx(req) + " " + hx(nodekind) + " " + hx(nodeval);
             line += " " + (shown ? digest(shown, shownN) : std::string("$"));
             line += " " + hx(det->totalMemoryLeaks(mem_leak_period_all)) + " " + hx(rep.count - rep0);
             out += line;
@@ -241,6 +272,7 @@ int main()
         }
         for (size_t i = 0; i < blocks.size(); i++) if (blocks[i].live) release(blocks[i]);
         out += " | :end " + hx(nlive) + lives + " " + hx(det->totalMemoryLeaks(mem_leak_period_all)) + " " + hx(rep.count - rep0);
+        if (accountant) { accountant->stop(); delete accountant; gMalloc = &aMalloc; }
         delete det;
         puts(out.c_str()); fflush(stdout);
     }
